@@ -10,8 +10,15 @@ TexSoupModel/ArgsDriver.lean:
                (h2 = one BracketGroup('b'), every other h<k> = one BraceGroup('a'))
     op   ::= a:<item> | e:<item>,.. | i:<int>:<item> | r:<item> | p:<int> | p | v | c
              | g:<int> | s:<lo>:<hi> | t          (bounds: int or `_`)
+             | x:<lo>:<hi>      target.extend(target[lo:hi])    - extend by a TexArgs object
+             | y                target.extend(other)            - `other` = the args of a second command
+             | o:<op>           <op> with the roles of target and other swapped (o:y = other.extend(target))
 
-Canonical answer: `<out> @ lst=..|all=..` per operation, joined by `;` (see ArgsDriver.lean).
+(`target.extend(target)` itself is not an operation: on a non-empty TexArgs it does not
+terminate - the implementation loops over the list it is growing, where a Python list doubles.)
+
+Canonical answer: `<out> @ lst=..|all=..` per operation, joined by `;` (see ArgsDriver.lean);
+histories that use `other` (`y`, `o:..`) append ` & lst=..|all=..` of `other` to every state.
 The list reference has no `.all`; comparisons with it drop the `|all=..` parts.
 """
 import itertools
@@ -72,9 +79,9 @@ def _state(lst, all_=None):
 ERRS = (TypeError, ValueError, IndexError)
 
 
-def _apply(target, op, slice_state, shared=None):
+def _apply(target, op, slice_state, shared=None, other=None):
     """Run one operation word on `target` (TexArgs or RefList); canonical output.
-    `shared` holds the `h<k>` objects of the history."""
+    `shared` holds the `h<k>` objects of the history, `other` is the second list (for `y`)."""
     k, _, rest = op.partition(':')
     _mk = lambda w: _mk_item(w, shared)      # noqa: E731
     try:
@@ -109,6 +116,13 @@ def _apply(target, op, slice_state, shared=None):
             return 'slice ' + slice_state(r)
         if k == 't':
             return 'string ' + enc(str(target))
+        if k == 'x':
+            lo, _, hi = rest.partition(':')
+            target.extend(target[_bound(lo):_bound(hi)])
+            return 'none'
+        if k == 'y' and other is not None:
+            target.extend(other)
+            return 'none'
     except ERRS as e:
         return type(e).__name__
     except Exception as e:                          # anything else is a disagreement by itself
@@ -118,30 +132,49 @@ def _apply(target, op, slice_state, shared=None):
 
 # ----------------------------------------------------------------------------- implementation
 
+def uses_other(ops):
+    return any(op == 'y' or op.startswith('o:') for op in ops)
+
+
+def _run(ops, target, other, slice_state, state, extra):
+    """Common loop of impl_run / ref_run over `target` and `other`."""
+    two = uses_other(ops)
+    res = []
+    shared = {}
+    for op in ops:
+        if op.startswith('o:'):
+            out = _apply(other, op[2:], slice_state, shared, target)
+        else:
+            out = _apply(target, op, slice_state, shared, other)
+        line = out + ' @ ' + state(target)
+        if two:
+            line += ' & ' + state(other)
+        res.append(line + extra())
+    return ';'.join(res)
+
+
 def impl_run(ops):
     """Canonical answer of the REAL TexSoup.data.TexArgs for the history `ops` (list of
-    operation words). The list under test is the `.args` of a command, whose `str` is
-    checked after every step ("which is what the owning node prints")."""
+    operation words). The list under test is the `.args` of a command `\\o`, `other` the `.args`
+    of a second command `\\q`; the `str` of both commands is checked after every step
+    ("which is what the owning node prints")."""
     common.impl()
     from TexSoup import data as D
-    owner = D.TexCmd('o')
-    args = owner.args
-    assert type(args) is D.TexArgs and len(args) == 0 and args.all == []
+    owner, owner2 = D.TexCmd('o'), D.TexCmd('q')
+    args, other = owner.args, owner2.args
+    assert type(args) is D.TexArgs and len(args) == 0 and args.all == [] and other is not args
 
     def slice_state(r):
         if type(r) is not D.TexArgs:
             return 'NOT-TEXARGS ' + repr(r)
         return _state(r, r.all)
 
-    res = []
-    shared = {}
-    for op in ops:
-        out = _apply(args, op, slice_state, shared)
-        line = out + ' @ ' + _state(args, args.all)
-        if str(owner) != '\\o' + ''.join(str(x) for x in list.__iter__(args)):
-            line += ' OWNER-MISMATCH'
-        res.append(line)
-    return ';'.join(res)
+    def extra():
+        ok = str(owner) == '\\o' + ''.join(str(x) for x in list.__iter__(args)) and \
+            str(owner2) == '\\q' + ''.join(str(x) for x in list.__iter__(other))
+        return '' if ok else ' OWNER-MISMATCH'
+
+    return _run(ops, args, other, slice_state, lambda a: _state(a, a.all), extra)
 
 
 # ----------------------------------------------------------------------------- list reference
@@ -203,20 +236,19 @@ class RefList(object):
     def __len__(self):
         return len(self.l)
 
+    def __iter__(self):
+        return iter(list(self.l))
+
     def copy(self):
         return RefList(self.l)
 
 
-def ref_run(ops, ref=None):
-    """The same history on a plain list; answers carry `lst=` only."""
+def ref_run(ops, ref=None, ref_other=None):
+    """The same history on plain lists; answers carry `lst=` only."""
     common.impl()
     ref = RefList() if ref is None else ref
-    res = []
-    shared = {}
-    for op in ops:
-        out = _apply(ref, op, lambda r: _state(r), shared)
-        res.append(out + ' @ ' + _state(ref.l))
-    return ';'.join(res)
+    ref_other = RefList() if ref_other is None else ref_other
+    return _run(ops, ref, ref_other, lambda r: _state(r), lambda r: _state(r.l), lambda: '')
 
 
 _ALL = re.compile(r'\|all=[^ ;]*')
@@ -289,6 +321,72 @@ def bfs_extend(prefix, rest, pool=POOL):
     return rec(list(prefix), ref, rest)
 
 
+# ----------------------------------------------------------------------------- two lists, extend by a TexArgs
+
+#: pool for the histories over two argument lists: an unparsed '{a}', a shared object (may be in
+#: a list twice, and in both lists), whitespace.
+POOL_PAIR = [S_A, 'h0', S_WS]
+
+#: states worth starting from: `.all` order differs from list order after an insertion at the front
+#: of a non-empty list, or when the same object is in the list twice and something is added later
+PAIR_PREFIXES = [
+    [],
+    ['o:a:' + S_A, 'o:i:0:' + S_B],
+    ['a:' + S_A, 'i:0:' + S_B],
+    ['o:a:h0', 'o:a:h0', 'o:a:' + S_B],
+    ['a:h0', 'a:h0', 'a:' + S_B],
+    ['o:a:' + S_A, 'o:a:' + S_WS, 'o:i:-9:' + S_B, 'a:' + S_A],
+]
+
+
+def ops_side_at(n, pool):
+    """Operations offered to one of the two lists when it has `n` items (the single-list alphabet
+    of `ops_at`, slightly narrower, plus extending by an own slice)."""
+    idx = list(range(-(n + 1), n + 2))
+    bounds = ['_', '-1', '1']
+    ops = ['a:' + it for it in pool]
+    ops += ['i:%d:%s' % (i, it) for i in idx for it in pool]
+    ops += ['r:' + it for it in pool]
+    ops += ['p'] + ['p:%d' % i for i in idx]
+    ops += ['v', 'c', 't']
+    ops += ['g:%d' % i for i in idx]
+    ops += ['s:%s:%s' % (lo, hi) for lo in bounds for hi in bounds]
+    ops += ['x:%s:%s' % (lo, hi) for lo in bounds for hi in bounds]
+    ops += ['e:' + ','.join(pool[:2])]
+    return ops
+
+
+def ops_pair_at(nt, no, pool):
+    return ops_side_at(nt, pool) + ['y'] + ['o:' + op for op in ops_side_at(no, pool)] + ['o:y']
+
+
+def _pair_apply(refs, op):
+    t, o = refs
+    if op.startswith('o:'):
+        _apply(o, op[2:], lambda r: '', None, t)
+    else:
+        _apply(t, op, lambda r: '', None, o)
+
+
+def bfs_pair(prefix, rest, pool=POOL_PAIR):
+    """ALL histories over two lists that extend `prefix` by exactly `rest` operations of
+    `ops_pair_at` (indices -(n+1)..n+1 for the current length of the list concerned)."""
+    common.impl()
+    refs = (RefList(), RefList())
+    for op in prefix:
+        _pair_apply(refs, op)
+
+    def rec(pre, refs, d):
+        if d == 0:
+            yield pre
+            return
+        for op in ops_pair_at(len(refs[0]), len(refs[1]), pool):
+            r2 = (refs[0].copy(), refs[1].copy())
+            _pair_apply(r2, op)
+            yield from rec(pre + [op], r2, d - 1)
+    return rec(list(prefix), refs, rest)
+
+
 RANDOM_ITEMS = [enc(s) for s in ('{a}', '{a}', '[b]', '{}', '[]', '[a]', '{[b]}', ' ', '\n\t', '',
                                  '{x]', '[', '}', '[x]{y}', 'a', ' {a}', '{a} ', '[]]', '\\c')] + \
                ['g:' + enc('{a}'), 'g@3:' + enc('{a}'), 'g@7:' + enc('{a}'), 'g:' + enc('[b]'),
@@ -296,16 +394,22 @@ RANDOM_ITEMS = [enc(s) for s in ('{a}', '{a}', '[b]', '{}', '[]', '[a]', '{[b]}'
                 'x:' + enc('{a}'), 'x:' + enc(' '), 'x:' + enc('q'), 'h0', 'h0', 'h1', 'h2']
 
 
-def random_history(rng, maxlen):
-    ops, n = [], 0                                   # n: rough length, only steers indices
+def random_history(rng, maxlen, items=None):
+    """A random history over target and other: the single-list operations on either list,
+    extending by an own slice (`x`) and by the other list (`y`, `o:y`)."""
+    items = RANDOM_ITEMS if items is None else items
+    ops, ns = [], [0, 0]                             # rough lengths, only steer indices
     for _ in range(rng.randint(1, maxlen)):
-        it = rng.choice(RANDOM_ITEMS)
+        side = 1 if rng.random() < 0.3 else 0
+        n = ns[side]
+        it = rng.choice(items)
         i = rng.randint(-(n + 3), n + 3)
-        k = rng.choice('aaaiiiirrppvcgstee')
+        k = rng.choice('aaaiiiirrppvcgsteexxyy')
+        b = lambda: '_' if rng.random() < 0.3 else str(rng.randint(-(n + 3), n + 3))   # noqa: E731
         if k == 'a':
             op = 'a:' + it; n += 1
         elif k == 'i':
-            op = 'i:%d:%s' % (i, it); n += 1
+            op = 'i:%d:%s' % (rng.choice([0, 0, i]), it); n += 1
         elif k == 'r':
             op = 'r:' + it; n = max(0, n - 1)
         elif k == 'p':
@@ -313,16 +417,22 @@ def random_history(rng, maxlen):
         elif k == 'g':
             op = 'g:%d' % i
         elif k == 's':
-            b = lambda: '_' if rng.random() < 0.3 else str(rng.randint(-(n + 3), n + 3))
             op = 's:%s:%s' % (b(), b())
+        elif k == 'x':
+            op = 'x:%s:%s' % (b(), b()); n = min(2 * n, 12)
+        elif k == 'y':
+            op = 'y'; n = min(n + ns[1 - side], 12)
         elif k == 'e':
             m = rng.randint(0, 4)
-            op = 'e:' + ','.join(rng.choice(RANDOM_ITEMS) for _ in range(m)); n += m
+            op = 'e:' + ','.join(rng.choice(items) for _ in range(m)); n += m
         else:
             op = k
             if k == 'c':
                 n = 0
-        ops.append(op)
+        if n > 12 and k in 'xy':                     # keep the lists from doubling for ever
+            op, n = 'c', 0
+        ns[side] = n
+        ops.append('o:' + op if side else op)
     return ops
 
 
@@ -378,6 +488,9 @@ def selftest(driver_path=None, depth=3, nrandom=2000, maxlen=40, verbose=True):
     import time
     t0 = time.time()
     n1, bad1 = compare(bfs_histories(depth), driver_path)
+    for pre in PAIR_PREFIXES:                        # two lists, extend by a TexArgs object
+        n1b, bad1b = compare(bfs_pair(pre, 2), driver_path)
+        n1, bad1 = n1 + n1b, bad1 + bad1b
     t1 = time.time()
     rng = common.rng('lib_args')
     # random histories use a richer pool, including textual twins at different positions:
@@ -392,7 +505,7 @@ def selftest(driver_path=None, depth=3, nrandom=2000, maxlen=40, verbose=True):
            'random_histories': n2, 'random_disagreements': bad2,
            'twin_probe': probe, 'seconds': (round(t1 - t0, 1), round(t2 - t1, 1))}
     if verbose:
-        print('lib_args selftest: BFS depth %d: %d histories, %d disagreements (%.1fs); '
+        print('lib_args selftest: BFS depth %d + pair prefixes depth 2: %d histories, %d disagreements (%.1fs); '
               'random: %d histories, %d disagreements (%.1fs)' %
               (depth, n1, len(bad1), t1 - t0, n2, len(bad2), t2 - t1))
         for b in (bad1 + bad2)[:10]:
